@@ -300,10 +300,10 @@ def make_game(mem):
     return g
 
 
-def step(mem, op, res, hist, level, observers):
+def step(mem, op, res, hist, level, observers, game=None):
     """Runs one mutating op on a fresh real Game built from `mem` and on a copy of the model.
     Returns the new model memory, or None when a violation was recorded."""
-    g = make_game(mem)
+    g = game if game is not None else make_game(mem)
     m2 = M.copy_mem(mem)
     res.transitions += 1
     res.evaluations += 1
@@ -388,6 +388,131 @@ def explore(component, first_idx, init_which, seed, depth, res, deep_stride, lvl
     rec(mem0, [], 0)
 
 
+# ---------------------------------------------------------------- carts that come from the loaders
+DATA_SECTIONS = ['gfx', 'gff', 'map', 'sfx', 'music']
+
+
+def p8_text(fills, order, present):
+    """A .p8 file (independent writer) with the data sections in the given order; absent ones are left out."""
+    out = [rc.P8_HEADER, b'version 33\n', b'__lua__\n', b'x=1\n']
+    rows = {'gfx': lambda b: rc.gfx_rows(b), 'gff': lambda b: rc.hex_rows(b, 128), 'map': lambda b: rc.hex_rows(b, 128),
+            'sfx': lambda b: rc.sfx_rows(b), 'music': lambda b: rc.music_rows(b)}
+    for n in order:
+        if n in present:
+            out.append(b'__' + n.encode() + b'__\n' + b''.join(r.encode() + b'\n' for r in rows[n](fills[n])))
+    return b''.join(out)
+
+
+def loaded_cases(tier):
+    """(tag, order, present): every order of the five data sections with all present, and every subset of present
+    sections in the usual order and in reversed order."""
+    import itertools
+    out = []
+    for order in itertools.permutations(DATA_SECTIONS):
+        out.append(('order', list(order), list(DATA_SECTIONS)))
+    for mask in range(32):
+        present = [n for i, n in enumerate(DATA_SECTIONS) if mask >> i & 1]
+        out.append(('subset', list(DATA_SECTIONS), present))
+        out.append(('subset-reversed', list(reversed(DATA_SECTIONS)), present))
+    out.append(('png', None, list(DATA_SECTIONS)))
+    # sections with trailing rows left out, as PICO-8 writes them ('short:<section>:<rows>')
+    for name, full in (('gfx', 128), ('map', 32), ('gff', 2), ('music', 64), ('sfx', 64)):
+        for r in (0, 1, full - 1):
+            out.append(('short:%s:%d' % (name, r), list(DATA_SECTIONS), list(DATA_SECTIONS)))
+    out.append(('short:all:2', list(DATA_SECTIONS), list(DATA_SECTIONS)))
+    return out
+
+
+def loaded_menu():
+    ops = gfxmap_ops()
+    menu = ops[::max(1, len(ops) // 24)]
+    menu += [o for o in ops if o[0] == 'set_cell'][:8]
+    menu += gff_ops()[::7][:6] + sfx_ops()[::11][:6] + music_ops()[::5][:6]
+    return menu
+
+
+def run_loaded(tag, order, present, seed, res):
+    """The accessors on a cart as the LOADERS hand it out (object wiring between Map and Gfx included), not on a cart
+    whose region buffers were injected: initial observation, then a history of edits on that one cart."""
+    import io
+    from pico8.game.formatter.p8 import P8Formatter
+    from pico8.game.formatter.p8png import P8PNGFormatter
+    fills = initial_fills(2, seed)
+    fills['music'] = bytes((b & 0x7f) if i % 4 == 3 else b for i, b in enumerate(fills['music']))
+    case = {'loaded': [tag, order, present]}
+    try:
+        if tag == 'png':
+            mem = bytearray(0x8001)
+            pos = 0
+            for n, (lo, hi) in rc.REGION_ORDER:
+                mem[lo:hi] = fills[n]
+            mem[0x4300:0x4303] = b'x=1'
+            mem[0x8000] = 33
+            data = rc.png_encode_rgba(160, 205, rc.stego_pack(bytes(mem), 160, 205, [bytes(160 * 4)] * 205))
+            g = P8PNGFormatter.from_file(io.BytesIO(data), filename='x.p8.png')
+        elif tag.startswith('short:'):
+            _, name, r = tag.split(':')
+            text = p8_text(fills, order, present)
+            # cut the named section(s) down to r rows
+            lines = text.split(b'\n')
+            outl, cur, kept = [], None, 0
+            for ln in lines:
+                if ln.startswith(b'__') and ln.endswith(b'__'):
+                    cur, kept = ln.strip(b'_').decode(), 0
+                    outl.append(ln)
+                    continue
+                if cur in DATA_SECTIONS and (name == 'all' or cur == name):
+                    if kept >= int(r):
+                        continue
+                    kept += 1
+                outl.append(ln)
+            g = P8Formatter.from_file(io.BytesIO(b'\n'.join(outl)), filename='x.p8')
+        else:
+            g = P8Formatter.from_file(io.BytesIO(p8_text(fills, order, present)), filename='x.p8')
+    except Exception as e:
+        res.violation('C17|loaded|load-raise|%s|%s' % (type(e).__name__, tag), 'loading the cart raised %r' % e, case)
+        return
+    got = carts.game_regions(g)
+    for n in present:
+        if got[n] != bytes(fills[n]):
+            res.count('loaded_region_differs_from_file')     # C03/C16 decide the loaders; the model starts from what was loaded
+    mem = M.new_mem(got)
+    sig0 = len(res.violations)
+    hist = []
+    # observe before any edit, then after each edit of the history
+    for comp, (ops_fn, obs_fn) in COMPONENTS.items():
+        for ob in obs_fn(0):
+            res.count('observations')
+            want = norm_result(apply_model(mem, ob))
+            try:
+                have = norm_result(apply_impl(g, ob))
+            except Exception as e:
+                res.violation('C17|loaded|getter-raise|%s|%s|%s' % (type(e).__name__, ob[0], tag),
+                              'freshly loaded cart (%s, sections %r in order %r): %r raised %r' % (tag, present, order, ob, e), case)
+                return
+            if have != want:
+                res.violation('C17|loaded|getter|%s|%s' % (ob[0], tag),
+                              'freshly loaded cart (%s, sections %r in order %r): %r returned %r..., the loaded memory says '
+                              '%r...' % (tag, present, order, ob, str(have)[:80], str(want)[:80]), case)
+                return
+    for op in loaded_menu():
+        comp = next(c for c, (ops_fn, _) in COMPONENTS.items() if op in ops_fn())
+        r = ShardResult()
+        m2 = step(mem, op, r, hist, 0, COMPONENTS[comp][1], game=g)
+        res.evaluations += r.evaluations
+        res.transitions += r.transitions
+        for sig, v in r.violations.items():
+            res.violation('C17|loaded|%s|%s' % (sig.split('|', 1)[1], tag),
+                          v[0] + ' [cart loaded from %s, sections %r in order %r]' % (tag, present, order),
+                          {'loaded': [tag, order, present], 'hist': hist + [list(op)]})
+        if m2 is None:
+            return
+        res.nontriv(('loaded', tag, tuple(order or ()), tuple(present), op))
+        mem = m2
+        hist = hist + [list(op)]
+    res.outcome(('loaded', tag, len(present)))
+
+
 def plan(tier):
     b = BOUNDS[tier]
     return {'gfxmap': b['gfxmap_depth'], 'gff': b['gff_depth'], 'sfx': b['sfx_depth'], 'music': b['music_depth']}
@@ -401,12 +526,20 @@ def shards(tier, seed):
         for init in range(3):
             for i in range(0, n, group):
                 items.append((tier, seed, comp, init, i, min(n, i + group)))
+    lc = loaded_cases(tier)
+    items += [('loaded', seed, lo, min(len(lc), lo + 12)) for lo in range(0, len(lc), 12)]
     # heavy components first
-    items.sort(key=lambda it: {'gfxmap': 0, 'sfx': 1}.get(it[2], 2))
+    items.sort(key=lambda it: 3 if it[0] == 'loaded' else {'gfxmap': 0, 'sfx': 1}.get(it[2], 2))
     return items
 
 
 def run_shard(item):
+    if item[0] == 'loaded':
+        res = ShardResult()
+        for tag, order, present in loaded_cases('quick')[item[2]:item[3]]:
+            run_loaded(tag, order, present, item[1], res)
+        res.sample({'family': 'loaded', 'case': list(loaded_cases('quick')[item[2]])})
+        return res
     tier, seed, comp, init, lo, hi = item
     res = ShardResult()
     depth = plan(tier)[comp]
@@ -420,6 +553,10 @@ def run_shard(item):
 
 def replay(case):
     res = ShardResult()
+    if 'loaded' in case:
+        tag, order, present = case['loaded']
+        run_loaded(tag, order, present, 0, res)
+        return [(s, v[0]) for s, v in res.violations.items()]
     hist = [tuple(o) for o in case['hist']]
     comp = None
     for c, (ops_fn, obs_fn) in COMPONENTS.items():
